@@ -13,7 +13,7 @@ use crate::evidence::{Report, Tier};
 use crate::world::glue_fingerprint;
 
 fn alphabet(n: usize, reduced: bool) -> Vec<SEv> {
-    let mut v = vec![SEv::Cdata, SEv::UlaOwn(0), SEv::UlaOwn(1), SEv::Tflush, SEv::Crtx, SEv::UnakSingle(0), SEv::Thk(1000), SEv::Cburst(16)];
+    let mut v = vec![SEv::Cdata, SEv::UlaOwn(0), SEv::UlaOwn(1), SEv::Tflush, SEv::Crtx, SEv::UnakSingle(0), SEv::Thk(1000), SEv::Cburst(16), SEv::UnakRtx(1)];
     if !reduced {
         v.extend([SEv::Cctl, SEv::Crit(500), SEv::UlaOther(0), SEv::UsrtAck(1), SEv::UnakDup(1), SEv::Thk(2500), SEv::Uka(0), SEv::Uka(1)]);
         for l in 2..n {
@@ -29,11 +29,14 @@ fn inits() -> Vec<(String, InitKind)> {
         ("S7 live, classic, guard off".to_string(), InitKind::Live { classic: true }),
         ("S7 streaming, classic, guard off".to_string(), InitKind::Streaming { classic: true }),
         ("S7 link 0 after REG_ERR, classic".to_string(), InitKind::AfterRegErr { link: 0, classic: true }),
+        ("S7 streaming, classic, windows at the floor (1000, 1037, 1100, ...)".to_string(), InitKind::WindowEdge { floor: true }),
+        ("S7 streaming, classic, windows at the ceiling (60000, 59999, 59972, ...)".to_string(), InitKind::WindowEdge { floor: false }),
     ]
 }
 
 fn models(tier: Tier) -> Vec<(String, Arc<StreamModel>, Vec<Plan>)> {
-    let or = Oracles { c01: false, c03: true, c04: false, c10: true, c05: false };
+    // the attribution clause of C05 rides along: '-100 per charged NAK' presupposes that the right link is charged
+    let or = Oracles { c01: false, c03: true, c04: false, c10: true, c05: true };
     let mk = |name: &str, n: usize, reduced: bool| {
         Arc::new(StreamModel { name: name.to_string(), n, events: alphabet(n, reduced), inits: inits(), or })
     };
